@@ -677,7 +677,7 @@ func genScenario(r *rand.Rand, maxProcs int) (bool, []genProc) {
 			}
 		}
 		for k := 0; k < 4; k++ {
-			p.codes = append(p.codes, []int{0, 0, 1, 3}[r.Intn(4)])
+			p.codes = append(p.codes, []int{0, 0, 1, 3, 0, -1}[r.Intn(6)])
 		}
 		procs[i] = p
 	}
@@ -699,7 +699,7 @@ func (h *supH) drain(emit func(string)) {
 // with a dependent and a grand-dependent (process_completed_successfully on the dependent)
 func (h *supH) directed(emit func(string)) {
 	conds := []string{"c", "s", "h", "l", "t"}
-	modes := []string{"exit3", "exit0", "ready-exit0", "stop-running", "stop-pending", "startfail", "baddir", "restart-running", "shutdown"}
+	modes := []string{"exit3", "exitneg", "exit0", "ready-exit0", "stop-running", "stop-pending", "startfail", "baddir", "restart-running", "shutdown"}
 	for _, gran := range []string{"coarse"} {
 		for _, cond := range conds {
 			for _, mode := range modes {
@@ -739,6 +739,9 @@ func (h *supH) directed(emit func(string)) {
 				switch mode {
 				case "exit3":
 					emit("s exit a 3")
+				case "exitneg":
+					// killed by a signal from outside: Go reports exit code -1
+					emit("s exit a -1")
 				case "exit0":
 					emit("s exit a 0")
 				case "ready-exit0":
